@@ -122,8 +122,15 @@ _p("C08", "proof",
    "Proved (Props/C08.v) for every well-formed log/storage state: nextCommittedEnts returns nothing while paused or while a snapshot is pending, "
    "otherwise consecutive entries starting right after the applying cursor, within commit, and (async) below the unstable offset; batches respect "
    "the size budget up to one entry; the entries handed out are the logical log's entries at applying+1.. (C08_handout_is_the_logical_log). "
-   "Exactly-once across Ready/Advance interleavings is monitored on every schedule.",
-   ["well-formedness of storage and unstable log (consecutive indexes), established by C18's theorems"])
+   "The stream over histories is proved too (Proofs/CursorProofs.v, StreamProofs.v): inside raft.go the applying cursor is moved by nothing but "
+   "appliedTo, i.e. by a stepped MsgStorageApplyResp / MsgStorageAppendResp-with-snapshot to the index it acknowledges, never by any other message, "
+   "tick, proposal or configuration change (C08_step_moves_cursor_only_by_acks, C08_tick_keeps_cursor); through the RawNode API a Ready hands out the "
+   "consecutive run right after the cursor and moves the cursor to its end, Advance moves it only to what the last Ready queued (C08_cursor_discipline, "
+   "C08_advance_acks); hence for every history of one incarnation a later batch lies strictly above every earlier one (C08_apply_stream_exactly_once) and "
+   "starts right after the previous one unless an acknowledgement above the cursor, an installed snapshot, came in between (C08_apply_stream_gap_free); a new "
+   "incarnation starts at the configured applied index (C08_restart_cursor); C08_stream_nonvacuous exhibits a history with two batches. The monitors watch "
+   "the same on every schedule.",
+   ["well-formedness of storage and unstable log (consecutive indexes) at each Ready, established by C18's theorems for contract-following storage writes"])
 _p("C09", "proof",
    "Proved (Props/C09.v): restore never lowers commit, returns false without touching the unstable log when index <= commit / not in the "
    "snapshot's membership / (index, term) already matches, restores only as follower; the response is a promise message (withheld until "
@@ -192,8 +199,16 @@ _p("C16", "proof",
 _p("C17", "proof",
    "Proved for every state and message (Props/C17.v): a pre-vote request never changes term or vote; becoming pre-candidate neither; with PreVote a "
    "MsgHup does not raise the term; a pre-candidate raises its term only on a completed tally over the joint configuration; inside the leader lease "
-   "a non-forced higher-term (pre-)vote request changes nothing. CheckQuorum step-down timing is monitored via lockstep only.",
-   ["known finding F11 (a stale pre-vote grant of the previous pre-candidacy is counted) is classified separately"])
+   "a non-forced higher-term (pre-)vote request changes nothing. CheckQuorum (Proofs/CheckQuorumProofs.v): a leader marks a peer recently active only "
+   "when it steps a MsgAppResp or MsgHeartbeatResp from it, whatever else it steps (C17_leader_hears_only_responses); a tick advances the election timer or "
+   "fires the check, which finds a quorum marked or ends the leadership and clears the marks (C17_check_quorum_tick); therefore, over every sequence of ticks "
+   "and messages, a leader that hears only from peers that with itself are no quorum of every voter set is no longer leader of its term after at most two "
+   "election timeouts of ticks (C17_check_quorum_steps_down; C17_check_quorum_nonvacuous is a concrete elected leader that only ticks). The monitor checks "
+   "the same bound on every schedule.",
+   ["known finding F13: the step-down window is counted from the last leadership-transfer request, because raft.go restarts the election timer "
+    "when it accepts one ('Transfer leadership should be finished in one electionTimeout'); the statement without that exclusion is refuted on the "
+    "model (C17_unrestricted_refuted) and on the implementation (corpus/f13_transfer_postpones_checkquorum.sched), and such histories are "
+    "classified as the known finding"])
 _p("C18", "proof",
    "Proved (Props/C18.v): MemoryStorage refines an abstract log (base + consecutive entries): Term / Entries answer exactly as the abstract log with "
    "ErrCompacted / ErrUnavailable exactly outside the range, size-limited non-empty prefixes; Append (truncate-and-append), Compact, ApplySnapshot, "
